@@ -42,7 +42,7 @@ ASSUMPTIONS = [
     "part of this property's domain",
     "semantic disagreements of a history (C09's subject) do not count here",
 ]
-EXAMPLES = {"quick": 60, "thorough": 1500}
+EXAMPLES = {"quick": 60, "thorough": 5000}
 MIN_NONTRIVIAL = {"quick": 150, "thorough": 3000}
 
 
